@@ -86,4 +86,34 @@ def sgCasesExp : String := "g == nil | g.Name == \"\" | g.FilteringGroup == \"\"
 /-- `serverGroup.validate` starts with the name and the filtering-group reference (`Config.valSrvGroups`). -/
 theorem sg_cases_src : sg_cases = sgCasesExp := rfl
 
+/-! ### Round 3: cross-references and the stream listeners -/
+
+/-- `configuration.validateConnLimit`: skipped when disabled, `resume` below the number of stream
+addresses is rejected (`Config.valConnN`). -/
+theorem connn_conds_src : connn_conds = "!connLim.Enabled | connLim.Resume < n" := by decide
+
+/-- `serverGroups.streamAddrNum` leaves out exactly the DNS-over-QUIC servers (`Config.streamN`). -/
+theorem stream_skip_src : stream_skip = "s.Protocol == srvProtoQUIC" := by decide
+
+def validateTailExp : String :=
+  "errors.ErrNoValue | fmt.Errorf(\"%s: %w\", kv.Key, err) | c.validateConnLimit()"
+/-- `configuration.validate` ends with the connection-limit cross-check (last entry of `Config.validate`). -/
+theorem validate_tail_src : validate_tail = validateTailExp := rfl
+
+/-- `serverGroups.toInternal` reports a filtering group that is not in the map (`XErr.unknownFg`). -/
+theorem fg_lookup_src : fg_lookup = "!ok | err != nil | err != nil" := by decide
+
+def limitWrapExp : String := "nil, err | c.limiter.Limit(l, dnsserver.MustServerInfoFromContext(ctx)), nil"
+/-- Every stream listener opened through the limiter's listen config is wrapped: one slot per
+listener (`Config.startListeners`). -/
+theorem limit_wrap_src : limit_wrap = limitWrapExp := rfl
+
+def fgCasesExp : String :=
+  "g == nil | g.Parental == nil | g.RuleLists == nil | g.SafeBrowsing == nil | g.ID == \"\""
+/-- `filteringGroup.validate`: the three sub-sections, then the identifier (`Config.valFltGroups`). -/
+theorem fg_cases_src : fg_cases = fgCasesExp := rfl
+
+/-- `tlsConfig.validate`: missing and needed / present and not needed (`Config.valTls`). -/
+theorem tls_cases_src : tls_cases = "c == nil | !needsTLS" := by decide
+
 end Agd.Tie.C20
